@@ -258,6 +258,8 @@ def run(run):
         if run.tier == 'quick':
             tables = [t for t in tables if t[0] * t[1] <= 4] + rng.sample([t for t in tables if t[0] * t[1] > 4], 120)
         tables += [gen.random_table(rng, rng.randint(1, 6), rng.randint(1, 6), rng.choice((.1, .5, .9))) for _ in range(60 if run.tier == 'quick' else 1500)]
+        if run.deadline is not None:
+            rng.shuffle(tables)       # under a deadline every kind of table gets its turn
         fileno = 0
         for n, m, rows in tables:
             if not run.time_left():
